@@ -1042,7 +1042,7 @@ def c05_gcv(kernel, data=None, nodata=-3000, p=None, l0=None, lstep=None, grid=N
     from hdc.algo import ops
     rng = np.random.default_rng(29)
     if kernel == "whitswcv":
-        return _c05_accessor(mode, robust)
+        return _c05_accessor(mode, robust, p)
     p = float(p) if p is not None and 0 < float(p) < 1 else 0.9
     if robust:
         # degenerate residual distributions: constant, exactly linear, flat with a few spikes
@@ -1090,7 +1090,7 @@ def c05_gcv(kernel, data=None, nodata=-3000, p=None, l0=None, lstep=None, grid=N
     return {"violates": False}
 
 
-def _c05_accessor(mode, robust):
+def _c05_accessor(mode, robust, p=None):
     import xarray as xr
     import hdc.algo  # noqa
     from hdc.algo import ops
@@ -1099,24 +1099,33 @@ def _c05_accessor(mode, robust):
     t = np.arange(T)
     cube = np.round(3000 + 2500 * np.sin(2 * np.pi * t / 12.0)[:, None, None] + rng.normal(0, 400, (T, 1, 2))).astype("int16")
     da = xr.DataArray(cube, dims=("time", "y", "x"), attrs={"nodata": -3000})
-    kw = {}
-    if mode == "p":
-        kw["p"] = 0.9
-    if robust is not None:
-        kw["robust"] = robust
-    ds = da.hdc.whit.whitswcv(-3000, **kw)
     rb = True if robust is None else robust
     g = np.arange(-1.8, 4.2, 0.2)
     probs = []
-    if set(ds.data_vars) != {"band", "sgrid"} or str(ds["sgrid"].dtype) != "float32":
-        probs.append(f"dataset {list(ds.data_vars)} / sgrid dtype {ds['sgrid'].dtype}")
-    else:
+    ps = [None]
+    if mode == "p":
+        ps = [0.9, 0.5, 0.1]
+        try:
+            if p is not None and 0 < float(p) < 1 and float(p) not in ps:
+                ps.insert(0, float(p))
+        except (TypeError, ValueError):
+            pass
+    for pp in ps:
+        kw = {}
+        if mode == "p":
+            kw["p"] = pp
+        if robust is not None:
+            kw["robust"] = robust
+        ds = da.hdc.whit.whitswcv(-3000, **kw)
+        if set(ds.data_vars) != {"band", "sgrid"} or str(ds["sgrid"].dtype) != "float32":
+            probs.append(f"dataset {list(ds.data_vars)} / sgrid dtype {ds['sgrid'].dtype}")
+            continue
         band = ds["band"].transpose("time", "y", "x").values
         for xx in range(2):
             y = cube[:, 0, xx].astype("float64")
-            o, l = (ops.ws2dwcvp(y, -3000, 0.9, g, rb) if mode == "p" else ops.ws2dwcv(y, -3000, g, rb))
+            o, l = (ops.ws2dwcvp(y, -3000, pp, g, rb) if mode == "p" else ops.ws2dwcv(y, -3000, g, rb))
             if not np.array_equal(band[:, 0, xx], o) or abs(float(ds["sgrid"].values[0, xx]) - np.float32(np.log10(l))) > 1e-6:
-                probs.append(f"pixel {xx}: accessor result differs from the kernel with the documented defaults")
+                probs.append(f"pixel {xx} p={pp}: accessor result differs from the kernel with the documented defaults")
     return {"violates": bool(probs), "why": probs}
 
 
@@ -1387,11 +1396,23 @@ def c11_dekad(kind, y=1, m=1, d=1, h=0, mi=0, s=0, us=0, raw=36, n=0, raw2=36):
                 import numpy as np
                 import xarray as xr
                 import hdc.algo  # noqa
-                if 1678 <= y <= 2261:
-                    t = xr.DataArray(np.array([np.datetime64(inst)], dtype="datetime64[ns]"), dims=("time",), name="time")
+                import pandas as pd
+                # datetime64[ns] covers 1678..2261: a year outside is folded into that range (same month / day / time of day)
+                ya = y if 1678 <= y <= 2261 else (2024 if (m == 2 and d == 29) else 1900 + y % 300)
+                for inst2 in (dt.datetime(ya, m, d, h, mi, s, us), dt.datetime(ya, m, d)):
+                    D2 = Dekad(inst2)
+                    t = xr.DataArray(np.array([np.datetime64(inst2)], dtype="datetime64[ns]"), dims=("time",), name="time")
                     t = t.assign_coords(time=t)
-                    chk(int(t.time.dekad.idx.values[0]) == D.idx and int(t.time.dekad.yidx.values[0]) == D.yidx
-                        and int(t.time.dekad.raw.values[0]) == D.raw and int(t.time.dekad.linspace.values[0]) == D.yidx - 1, "accessor")
+                    acc = t.time.dekad
+                    chk(int(acc.idx.values[0]) == D2.idx and int(acc.yidx.values[0]) == D2.yidx
+                        and int(acc.raw.values[0]) == D2.raw and int(acc.linspace.values[0]) == D2.yidx - 1, f"accessor idx/yidx/raw/linspace at {inst2}")
+                    chk(int(acc.ndays.values[0]) == D2.ndays, f"accessor ndays at {inst2}")
+                    chk(str(acc.label.values[0]) == str(D2), f"accessor label at {inst2}")
+                    chk(int(acc.year.values[0]) == ya and int(acc.month.values[0]) == m, f"accessor year/month at {inst2}")
+                    chk(pd.Timestamp(acc.start_date.values[0]).to_pydatetime() == D2.start_date,
+                        f"accessor start_date at {inst2}: {acc.start_date.values[0]} vs {D2.start_date}")
+                    chk(pd.Timestamp(acc.end_date.values[0]).to_pydatetime() == D2.end_date,
+                        f"accessor end_date at {inst2}: {acc.end_date.values[0]} vs {D2.end_date}")
         elif kind == "from_raw":
             D = Dekad(int(raw))
             yy, mm, ii = D.year, D.month, D.idx
